@@ -26,7 +26,17 @@ def tag (filt exact : Int) : String :=
 
 def step (s : Unit) : List String → Unit × String
   | ["widths"] => (s, s!"widths {orientBits} {insphereBits}")
-  | "box" :: _ => (s, "box")   -- implementation-level oracle only (range of the rescaled coordinates)
+  | "box" :: rest =>      -- rescaling of a simulation box and of generators into [1,2)
+    match rest.length / 3, pts (rest.length / 3) rest with
+    | n + 3, some (a :: sd :: gens) =>
+      let _ := n
+      -- 1 + 4 DBL_EPSILON = 1 + 2^-50 (exact)
+      let k : Float := fOfBits 4607182418800017412
+      let r := rescaleBox k (a.map fOfBits) (sd.map fOfBits)
+      let sh (p : V3 Float) : String := s!"{showF p.x} {showF p.y} {showF p.z}"
+      let gs := gens.foldl (fun acc g => acc ++ " " ++ sh (rescaleP (g.map fOfBits) r.mn r.ext)) ""
+      (s, s!"box {sh r.bottom} {sh ⟨r.top.x - r.bottom.x, r.top.y - r.bottom.y, r.top.z - r.bottom.z⟩} {sh r.tet.v0} {sh r.tet.v1} {sh r.tet.v2} {sh r.tet.v3}{gs}")
+    | _, _ => (s, "bad-op")
   | "oe" :: rest =>       -- exact orientation test only, arbitrary bit patterns
     match pts 4 rest with
     | some [a, b, c, d] =>
